@@ -26,7 +26,16 @@ KEYWORDS = ["as", "break", "const", "continue", "crate", "else", "enum", "extern
 STYLES = ["camelCase", "snake_case", "PascalCase", "SCREAMING_CASE", "_lead", "x1", "_1", "a_1b", "_", "__double", "trailing_",
           "mixed_Snake_Case", "ALLCAPS", "a"]
 CONTROLS = ["name", "value", "fora", "types", "selfish", "Selfie", "asyncx", "tryit", "boxed", "matcher"]
-POSITIONS = ["response_field", "alias", "variable", "input_field", "oneof_member", "enum_value", "id_field", "optional_id_alias"]
+POSITIONS = ["response_field", "alias", "variable", "input_field", "oneof_member", "enum_value", "id_field", "optional_id_alias",
+             "alias_of_own_rust_name"]
+
+
+def rust_field_name(name):
+    """What the Rust field for this response key is (approximately) called: snake_case, then `_` appended to
+    keywords. Only used to *construct* inputs (a schema field of that name, aliased as `name`), never as an oracle."""
+    from genlib import snake
+    sn = snake(name.strip("_")) if name.strip("_") else name
+    return sn + "_" if sn in KEYWORDS else sn
 
 
 def snake_ident_ok(name):
@@ -49,6 +58,10 @@ def build(name, position):
         # ID fields get an extra serde attribute (the int-or-string helper): the rename must survive next to it
         qfields.append(FieldDef(name, "ID!"))
         sel = [Field(name)]
+    elif position == "alias_of_own_rust_name":
+        # the schema field is called what the Rust field of the alias is called: the key on the wire is still the alias
+        qfields.append(FieldDef(rust_field_name(name), "Int"))
+        sel = [Field(rust_field_name(name), alias=name)]
     elif position == "optional_id_alias":
         qfields.append(FieldDef("ident", "ID"))
         sel = [Field("ident", alias=name)]
@@ -81,11 +94,13 @@ def run(tier):
                 variants.append((f, "keyword_variant"))
     mods = []
     for name, klass in names + variants:
-        for pos in (POSITIONS if klass != "keyword_variant" else (["variable", "input_field", "response_field", "id_field"] if tier == "quick" else POSITIONS)):
+        for pos in (POSITIONS if klass != "keyword_variant" else (["variable", "input_field", "response_field", "id_field", "alias_of_own_rust_name"] if tier == "quick" else POSITIONS)):
             if pos == "enum_value" and name in ("true", "false", "null"):
                 continue  # not GraphQL enum values
             if name.startswith("__") and pos in ("response_field", "input_field", "oneof_member", "enum_value", "id_field"):
                 continue  # `__` names are reserved for introspection in schemas
+            if pos == "alias_of_own_rust_name" and (rust_field_name(name) == name or not re.match(r"^[A-Za-z][A-Za-z0-9_]*$", rust_field_name(name))):
+                continue  # nothing to tell apart
             schema, doc = build(name, pos)
             mods.append({"name": name, "class": klass, "pos": pos, "schema": schema, "doc": doc})
     resps = generate([gen_request(m["schema"].sdl(), gql.render_doc(m["doc"]), DEFAULT_OPTS) for m in mods])
@@ -115,7 +130,7 @@ def run(tier):
             rep.violation("does_not_compile", m["label"], [(e["code"], e["message"][:150]) for e in fc.errors[:2]], m["sigs"])
             continue
         n = m["name"]
-        if m["pos"] in ("response_field", "alias"):
+        if m["pos"] in ("response_field", "alias", "alias_of_own_rust_name"):
             reqs.append({"case": m["case"], "module": "op", "what": "resp", "arg": {n: 7}})
         elif m["pos"] in ("id_field", "optional_id_alias"):
             reqs.append({"case": m["case"], "module": "op", "what": "resp", "arg": {n: "k7"}})
@@ -137,7 +152,7 @@ def run(tier):
             rep.violation("graphql_name_not_accepted_on_the_wire", dict(m["label"], payload=q["arg"]), (r or {}).get("err"), m["sigs"])
             continue
         out = json.loads(r["out"])
-        if m["pos"] in ("response_field", "alias"):
+        if m["pos"] in ("response_field", "alias", "alias_of_own_rust_name"):
             good = out == {n: 7}
         elif m["pos"] in ("id_field", "optional_id_alias"):
             good = out == {n: "k7"}
@@ -155,7 +170,7 @@ def run(tier):
     cov = {
         "evaluations": len(mods) + len(reqs), "distinct_nontrivial": sum(1 for m in mods if m["class"] != "control"),
         "rule": "one generated module per (name, position): %d keywords (strict, reserved and weak, editions 2015-2024), %d case "
-                "styles, %d non-keyword controls x 8 positions (response field, alias, variable, input field, @oneOf member, enum value, ID-typed field, alias of an optional ID; minus combinations GraphQL itself forbids), plus every keyword in "
+                "styles, %d non-keyword controls x 9 positions (response field, alias, alias of the field that is named like the alias's own Rust field, variable, input field, @oneOf member, enum value, ID-typed field, alias of an optional ID; minus combinations GraphQL itself forbids), plus every keyword in "
                 "other case styles (Capitalised, _leading; thorough also UPPER and trailing_) at the positions that snake_case it; every module is "
                 "compiled and one value is sent through the named position; non-trivial = keyword or style names" %
                 (len(KEYWORDS), len(STYLES), len(CONTROLS)),
